@@ -1,6 +1,61 @@
 import PiqpProofs.Basic
 import PiqpModel.Api
+
+/-!
+# C11 — update() and solve() do not allocate (model-level ledger)
+
+In the model every solver-owned buffer has its length in its *type* (`Vec K n`, `Mat K n p`, …) and the stored sparsity
+patterns (the capacity of the CSC arrays) are the `mask*` fields.  The ledger statement is therefore: `update` and `solve`
+return a solver of the same dimensions with the same patterns — for every argument subset, every outcome, any number of
+repetitions.  Heap behaviour of Eigen temporaries is outside the model; it is observed by harness/halloc.cpp.
+-/
+
 namespace Piqp.C11
-/-- placeholder obligation (to be replaced by the ledger / no-alias theorems) -/
-theorem model_step_total {K : Type} (x : K) : x = x := rfl
+
+variable {K : Type}
+variable [Add K] [Sub K] [Mul K] [Div K] [Neg K] [Zero K] [One K] [LT K] [DecidableLT K] [LE K] [DecidableLE K]
+variable [NatCast K] [BEq K] [Inhabited K]
+
+/-- the shape ledger of a set-up solver: dimensions and stored patterns -/
+def shape (a : AnySolver K) : Nat × Nat × Nat × Array Bool × Array Bool × Array Bool := (a.n, a.p, a.m, a.maskP, a.maskA, a.maskG)
+
+/-- `update` (accepted or rejected) never changes the ledger -/
+theorem update_preserves_shape (cs : Consts K) (sqrtF : K → K) (poison : K) (st : ApiState K)
+    (P : Option (RawMat K)) (c : Option (RawVec K)) (A : Option (RawMat K)) (b : Option (RawVec K)) (G : Option (RawMat K))
+    (h xlb xub : Option (RawVec K)) (reuse : Bool) :
+    (apiStep cs sqrtF poison st (.update P c A b G h xlb xub reuse)).1.sol.map shape = st.sol.map shape := by
+  unfold apiStep
+  simp only
+  split
+  · rename_i hs; simp [hs]
+  · rename_i a hs
+    split
+    · simp [hs]
+    · simp [hs, shape]
+
+/-- `solve` (whatever status it returns) never changes the ledger -/
+theorem solve_preserves_shape (cs : Consts K) (sqrtF : K → K) (poison : K) (st : ApiState K) :
+    (apiStep cs sqrtF poison st .solve).1.sol.map shape = st.sol.map shape := by
+  unfold apiStep
+  simp only
+  split
+  · rename_i hs; simp [hs]
+  · rename_i a hs
+    simp [hs, shape]
+
+/-- hence any number of update/solve calls in any order keeps the ledger of the last setup -/
+theorem history_preserves_shape (cs : Consts K) (sqrtF : K → K) (poison : K) (calls : List (Call K)) (st : ApiState K)
+    (hc : ∀ c ∈ calls, (∃ P cc A b G h l u r, c = Call.update P cc A b G h l u r) ∨ c = Call.solve) :
+    (calls.foldl (fun s c => (apiStep cs sqrtF poison s c).1) st).sol.map shape = st.sol.map shape := by
+  induction calls generalizing st with
+  | nil => rfl
+  | cons c cs' ih =>
+    simp only [List.foldl_cons]
+    rw [ih]
+    · rcases hc c (by simp) with ⟨P, cc, A, b, G, h, l, u, r, rfl⟩ | rfl
+      · exact update_preserves_shape cs sqrtF poison st P cc A b G h l u r
+      · exact solve_preserves_shape cs sqrtF poison st
+    · intro c' hc'
+      exact hc c' (by simp [hc'])
+
 end Piqp.C11
